@@ -169,6 +169,9 @@ impl Out {
     }
     /// is this case selected (replay mode restricts to one id)?
     pub fn selected(&self, id: &str) -> bool {
+        if std::env::var("VERIF_TRACE").is_ok() {
+            eprintln!("case {id}");
+        }
         match &self.only {
             None => true,
             Some(o) => o == id,
